@@ -1,0 +1,9 @@
+//go:build !verif
+
+package srv
+
+import "context"
+
+func verifAt(context.Context, string, ...any) {}
+
+func (s *Service) verifYield(string, ...any) {}
